@@ -50,7 +50,7 @@ func (r *run) batch(sub []Op) (*failure, bool) {
 			items = append(items, &item{op: op, s: s})
 		case "upclose", "uprst":
 			var cand []*mconn
-			for _, c := range r.openConns() {
+			for _, c := range r.closable() {
 				busy := false
 				for s := range usedS {
 					if s.conn == c {
@@ -168,6 +168,9 @@ func (r *run) batch(sub []Op) (*failure, bool) {
 			r.class("upstream-close")
 			for _, s := range it.victim {
 				if !s.st.Wait(r.d, func(st pool.StreamState) bool { return st.Destroyed > 0 }) {
+					if f := r.muxGoAwayDeadlock(it.c); f != nil {
+						return f, false
+					}
 					return r.failf(true, "lease-survives-connection-close", "batch{%s }: the upstream closed c%d but the stream of request %q was not reset; model: %s", desc, it.c.id, s.token, r.describe()), false
 				}
 				s.state = sFailed
@@ -222,13 +225,28 @@ func (r *run) batch(sub []Op) (*failure, bool) {
 		s := &mstream{n: len(r.strs), token: it.tok, st: res.Stream, state: sActive}
 		r.strs = append(r.strs, s)
 		arrived := false
-		ok := waitEither(r.d, func() bool {
+		mayBeLost := r.mode != pool.ModeAccept || len(usedC) > 0 || r.h.Kind == pool.Mux
+		wait := r.d
+		if mayBeLost {
+			wait = r.d / 10
+		}
+		ok := waitEither(wait, func() bool {
 			if q := r.rig.Up.Req(it.tok); q != nil {
 				arrived = true
 				return true
 			}
 			return s.st.State().Destroyed > 0
 		})
+		if !ok && mayBeLost {
+			// queued on a connection that died at that moment: ended by the proxy's timeout (see leaseOnce)
+			r.logf("  lease %s: lost with its connection, local reset (timeout)", it.tok)
+			r.class("lost-request-timeout")
+			if h := r.rig.Reset(s.st); h != nil {
+				return r.hang(h), false
+			}
+			s.state = sReset
+			continue
+		}
 		if !ok {
 			return r.failf(true, "request-never-sent", "batch{%s }: request %q was admitted but neither reached the upstream nor was its stream reset; model: %s", desc, it.tok, r.describe()), false
 		}
